@@ -1509,6 +1509,12 @@ aiff_write_header (SF_PRIVATE *psf, int calc_length)
 	ssnd_pad = (has_data && psf->header.indx + 16 < psf->dataoffset) ? psf->dataoffset - (psf->header.indx + 16) : 0 ;
 	psf_binheader_writef (psf, "Etm844z", BHWm (SSND_MARKER), BHW8 (psf->datalength + SIZEOF_SSND_CHUNK + ssnd_pad), BHW4 (ssnd_pad), BHW4 (0), BHWz (ssnd_pad)) ;
 
+	/* With no audio in the file the header is all there is : the FORM size above must cover this header, not the previous one. */
+	if (calc_length && ! has_data && psf->filelength < psf->header.indx)
+	{	psf->filelength = psf->header.indx ;
+		return aiff_write_header (psf, SF_FALSE) ;
+		} ;
+
 	/* Header construction complete so write it out. */
 	psf_fwrite (psf->header.ptr, psf->header.indx, 1, psf) ;
 
